@@ -185,6 +185,25 @@ var snippets = []string{
 	"array(1, 2, \"k\" => 3); list(\"a\" => $p, \"b\" => $q) = $r;",
 	"if ($a) { $b = 1; } elseif ($c) { $b = 2; } else { $b = 3; } while (true) { break; }",
 	"$f = function($x) use (&$y) { return $x + $y; }; $g = fn($a, $b) => [$a => $b];",
+	"$a, $b = [1, 2]; $c, $d, $e = f();",
+	"int $n = 1; string $s = \"x\"; ?int $m = null;",
+	"class G<T> { public T $v; function set(T $x): T { return $x; } } $g = new G<int>();",
+	"function h(int ...$xs): int { return 1; } h(...[1, 2]); h(a: 1, b: 2);",
+	"$o = new A(1, 2); $p = new class { public $q = 1; }; $r = $o like A;",
+	"abstract class T1 { use T2; const K = 1; static function s() { return static::K + self::K; } }",
+	"function g2() { yield 1; yield 2 => 3; } foreach (g2() as $k => $v) { $s = $v; }",
+	"$s = 'a' . \"b$c[0] {$d['k']} ${e}\" . <<<'N'\nraw\nN;\n",
+	"#[Attr(1)] function an(#[P] $x) { return $x; } @Route(\"/a\") class An { }",
+	"$x ??= 1; $y .= \"s\"; $z *= 2; $w <<= 1; $v = $u?->a?->b ?? 0;",
+	"try { f(); } catch (A | B $e) { } for ($i = 0, $j = 1; $i < 2; $i++, $j--) { continue; }",
+	"$h = <div class=\"a\">{$x}</div>; spawn f(1); $t = (int)$a + (string)$b . (float)$c;",
+}
+
+// whole lexemes for the pool mode of H_snip: special variables (they parse to dedicated nodes),
+// keywords and multi-byte operators
+var lexemePool = []string{
+	"$_GET", "$this", "$GLOBALS", "$argv", "$_SERVER", "&$r", "...$r", "static", "self", "parent", "null", "new", "fn", "function",
+	"?->", "::", "=>", "??", "**", "<=>", "<<<", "?>", "<?php", "/*", "#[", "@{", "${", "\\", "like", "spawn", "yield", "int", "class",
 }
 
 func H_snip() {
@@ -207,6 +226,10 @@ func H_snip() {
 	b := symx.Choose("tok", len(starts))
 	mode := symx.Choose("mode", 2) // 0 = insert before token b, 1 = replace token b
 	w := symx.String("w", n)
+	if symx.Param("pool", 0) == 1 {
+		// window drawn from a pool of whole lexemes that no 1-byte window can form
+		w = " " + lexemePool[symx.Choose("lex", len(lexemePool))] + " "
+	}
 	var src string
 	if mode == 0 {
 		src = base[:starts[b]] + w + base[starts[b]:]
